@@ -11,9 +11,15 @@ import recgen
 import values
 
 LEAN_MODULE = "Kio.Props.C18"
-THEOREMS = ["Kio.C18.read_spec_partial", "Kio.C18.magic", "Kio.C18.byte_corruption",
-            "Kio.C18.crc_field_corruption", "Kio.C18.truncation", "Kio.C18.timestamp_ms_lost_witness",
-            "Kio.C18.crc_byte_change"]
+THEOREMS = [
+    "Kio.C18.read_spec_partial",
+    "Kio.C18.magic",
+    "Kio.C18.byte_corruption",
+    "Kio.C18.crc_byte_change",
+    "Kio.C18.truncation",
+    "Kio.C18.timestamp_ms_lost_witness",
+    "Kio.C18.current_repaired",
+]
 
 # real-broker batches (tests/records/fixtures.py, originally from kafka-python), pinned here
 FIXTURES = [
